@@ -330,5 +330,10 @@ pub fn extra_evidence(_id: &str, _part: &mut crate::runner::Part) {}
 
 /// `predict`, with the alternative chosen where the observation fits it (see `model::predict_obs`).
 pub fn predict_seen(world: &World, before: &crate::model::ModelState, s: &SendStep, o: &SendObs, reading: crate::model::Reading) -> crate::model::Pred {
-    crate::model::predict_obs(&world.root, before, s, reading, o.calls.len(), &o.result, &o.out, &world.adopt())
+    predict_seen_allow(world, before, s, o, reading, crate::model::A_ALL)
+}
+
+/// ... with the alternatives this property's statement leaves open (`model::A_*`)
+pub fn predict_seen_allow(world: &World, before: &crate::model::ModelState, s: &SendStep, o: &SendObs, reading: crate::model::Reading, allow: u8) -> crate::model::Pred {
+    crate::model::predict_obs(&world.root, before, s, reading, o.calls.len(), &o.result, &o.out, &world.adopt(), &o.lex_err, allow)
 }
